@@ -67,13 +67,74 @@ def _list_attr(e: ast.expr) -> Optional[str]:
     return None
 
 
+def _collect_in_loop_form(f: Func) -> Func:
+    """`D = [v for v in self.L if COND(v)]; for w in D: BODY(w)` selects first and accounts afterwards; the rules are stated on the
+    form that does both in one pass: `D = []; for v in self.L: if COND(v): BODY(v); D.append(v)`.  The two are the same when BODY cannot
+    change COND for a later element or the list itself (checked: BODY calls nothing that stores to what COND's callee reads, and does
+    not touch self.L)."""
+    from .. import cfg as _cfg
+    for blk_owner in [f.node] + [n for n in own_nodes(f.node) if isinstance(n, (ast.If, ast.For, ast.While, ast.With, ast.Try))]:
+        for fld in ("body", "orelse", "finalbody"):
+            blk = getattr(blk_owner, fld, None)
+            if not isinstance(blk, list):
+                continue
+            for i, st in enumerate(blk):
+                if not (isinstance(st, ast.Assign) and len(st.targets) == 1 and isinstance(st.targets[0], ast.Name) and isinstance(st.value, ast.ListComp)
+                        and len(st.value.generators) == 1 and len(st.value.generators[0].ifs) == 1 and isinstance(st.value.generators[0].target, ast.Name)
+                        and norm.is_name(st.value.elt, st.value.generators[0].target.id) and _list_attr(st.value.generators[0].iter)):
+                    continue
+                D, v, L = st.targets[0].id, st.value.generators[0].target.id, _list_attr(st.value.generators[0].iter)
+                cond = st.value.generators[0].ifs[0]
+                nxt = [s_ for s_ in blk[i + 1:] if isinstance(s_, ast.For) and norm.is_name(s_.iter, D) and isinstance(s_.target, ast.Name)]
+                if not nxt or blk.index(nxt[0]) != i + 1 or nxt[0].orelse:
+                    continue
+                lp = nxt[0]
+                # BODY must not disturb COND / the list
+                reads = {x.attr for c_ in ast.walk(cond) if isinstance(c_, ast.Call) for x in [c_.func] if isinstance(x, ast.Attribute)}
+                touched = set()
+                for c_ in (x for b_ in lp.body for x in ast.walk(b_) if isinstance(x, ast.Call)):
+                    nm = norm.call_name(c_)
+                    touched |= set(_cfg.MOD_ATTRS.get(nm, set())) if nm in _cfg.MOD_ATTRS else set()
+                    if isinstance(c_.func, ast.Attribute) and _list_attr(c_.func.value) == L:
+                        touched.add(L)
+                cond_attrs = set()
+                for nm in reads:
+                    cond_attrs |= {"_completed"} if nm == "is_completed" else ({"_suspend_ticks_left"} if nm == "is_suspended" else {nm})
+                if touched & (cond_attrs | {L}):
+                    continue
+                node = norm.clone(f.node)
+                omap = {id(o): c_ for o, c_ in zip(ast.walk(f.node), ast.walk(node))}
+                cst, clp = omap[id(st)], omap[id(lp)]
+                w = lp.target.id
+                for x in ast.walk(clp):
+                    if isinstance(x, ast.Name) and x.id == w:
+                        x.id = v
+                new_init = ast.copy_location(ast.Assign(targets=[ast.Name(id=D, ctx=ast.Store())], value=ast.List(elts=[], ctx=ast.Load())), st)
+                app = ast.copy_location(ast.Expr(value=ast.Call(func=ast.Attribute(value=ast.Name(id=D, ctx=ast.Load()), attr="append", ctx=ast.Load()),
+                                                                args=[ast.Name(id=v, ctx=ast.Load())], keywords=[])), lp)
+                inner = ast.copy_location(ast.If(test=cst.value.generators[0].ifs[0], body=clp.body + [app], orelse=[]), lp)
+                new_lp = ast.copy_location(ast.For(target=ast.Name(id=v, ctx=ast.Store()), iter=cst.value.generators[0].iter, body=[inner], orelse=[], type_comment=None), lp)
+                # splice into the cloned block
+                cowner = omap[id(blk_owner)]
+                cblk = getattr(cowner, fld)
+                cblk[i] = new_init
+                cblk[i + 1] = new_lp
+                ast.fix_missing_locations(node)
+                for n in ast.walk(node):
+                    for ch in ast.iter_child_nodes(n):
+                        ch._parent = n  # type: ignore[attr-defined]
+                node._parent = getattr(f.node, "_parent", None)  # type: ignore[attr-defined]
+                return _collect_in_loop_form(Func(f.mod, f.qual, node, f.cls))
+    return f
+
+
 class PoolAnalysis:
     def __init__(self, P):
         self.P = P
         from ..util import inline_helpers, private_closure
-        self.f0: Func = P.fn(RP, "ResourcePool.run_one_tick")
+        self.f0: Func = P.fn(RP, "ResourcePool.run_one_tick", raw=True)
         self.closure = private_closure(P, self.f0)        # run_one_tick and the single-use private helpers extracted from it
-        self.f: Func = inline_helpers(P, self.f0)         # analysed with those helpers inlined ("extract method" changes nothing)
+        self.f: Func = _collect_in_loop_form(inline_helpers(P, self.f0))         # analysed with those helpers inlined ("extract method" changes nothing)
         self.g = cfg_of(self.f, subst_env=False)
         params = self.f.params()
         if len(params) < 3:
